@@ -34,6 +34,8 @@ fn depend(rng: &mut Rng, good: bool) -> String {
     } else {
         rng.pick(&["a:b:c", "x>1>2:a/b", "x:a", "nocolon", "foo-[0-9:a/b", ":", "{a:a/b",
             // exactly one ':' — a dangling or doubled one is invalid wherever it stands
+            // the path of a dependency obeys the same rules as PKG_LOCATION
+            "x-[0-9]*:../../../foo", "x:../.././foo", "x:../../foo/..", "x:../../foo/.", "x:../../..", "x:../../a/b/c",
             "foo-[0-9]*:../../cat/pkg:", "foo:a/b:", ":foo:a/b", "foo::a/b", "foo:a/b::", "foo:", ":a/b", "::"]).to_string()
     }
 }
@@ -118,6 +120,17 @@ fn gen_c16(tier: &str, rng: &mut Rng, emit: &mut dyn FnMut(Op)) {
         "PKGNAME=a-1\nALL_DEPENDS=a:b:c\n", "PKGNAME=a-1\nPKG_LOCATION=foo\n", "PKGNAME=a-1\r\nCATEGORIES=net\r\n", "PKGNAME=\n", "PKGNAME= x \n",
         " PKGNAME=a-1\n  PKGNAME=b-1\n", "PKGNAME=a-1\nPKGNAME=a-1\n", "PKGNAME=a-1\nPKGNAME =b-1\n", "=v\nPKGNAME=a-1\n"] {
         emit(Op::s("scanindex.read", &[doc, "-"]));
+    }
+    // a record is made of ITS OWN lines: what other records (earlier or later) say about the same
+    // packages does not reach into it
+    for doc in ["PKGNAME=lib-1.0\nPKG_LOCATION=c/p\n\nPKGNAME=app-2.0\nPKG_LOCATION=c/app\nALL_DEPENDS=lib>=1:../../c/p\n",
+        "PKGNAME=app-2.0\nALL_DEPENDS=lib-[0-9]*:../../c/p other>=1:../../c/o\nPKGNAME=lib-1.0\nPKG_LOCATION=c/p\nPKGNAME=other-3\nPKG_LOCATION=../../c/o\n",
+        "PKGNAME=a-1\nPKG_LOCATION=c/a\nALL_DEPENDS=a>=1:../../c/a\n"] {
+        emit(Op::s("scanindex.read", &[doc, "-"]));
+    }
+    for bad in ["x-[0-9]*:../../../foo", "x:../.././foo", "x:../../foo/..", "x:../../foo/.", "x:../../..", "x:../../a/b/c", "x:a/b/c", "x:../a/b"] {
+        emit(Op::s("scanindex.read", &[&format!("PKGNAME=a-1\nALL_DEPENDS=ok-[0-9]*:../../c/ok {}\n", bad), "-"]));
+        emit(Op::s("scanindex.read", &[&format!("PKGNAME=a-1\nALL_DEPENDS={}\nPKGNAME=b-2\n", bad), "-"]));
     }
     emit(Op::new("scanindex.read", &[b"PKGNAME=a-1\nCATEGORIES=\xe9\n", b"-"]));
     emit(Op::new("scanindex.read", &[b"PKGNAME=a-1\n\xff\nPKGNAME=b-1\n", b"-"]));
@@ -232,6 +245,18 @@ fn gen_c20(tier: &str, rng: &mut Rng, emit: &mut dyn FnMut(Op)) {
             emit(Op::new("pkgdb.iter", &[&a]));
         }
     }
+    // metadata content is bytes: a +COMMENT (or +DESC, +CONTENTS) that is not UTF-8 does not make
+    // the package disappear
+    for f in ["+COMMENT", "+DESC", "+CONTENTS", "+BUILD_INFO"] {
+        let mut a = b"dlatin-1.0".to_vec();
+        for g in ["+COMMENT", "+CONTENTS", "+DESC", "+BUILD_INFO"] {
+            a.push(0);
+            a.extend(g.as_bytes());
+            a.push(0);
+            if g == f { a.extend(b"Caf\xe9 client \xff\xfe\n"); } else { a.extend(b"plain\n"); }
+        }
+        emit(Op::new("pkgdb.iter", &[&a, b"dother-2.0\0+COMMENT\0c\0+CONTENTS\0x\0+DESC\0d"]));
+    }
     // directory trees
     let names: [&[u8]; 23] = [b"tzdata-current", b"wip-tool-HEAD", b"snapshot-nb", b"oddball-", b"foo-1.0 ", b"foo-1.0", b"bar-2.0nb3", b"py312-baz-0.1", b"a-b-c-1", b"nodash", b"-", b"x-", b"-1",
         b"caf\xc3\xa9-1.0", b"bad\xff-1", b"+COMMENT", b"foo-1.0nb1",
@@ -299,6 +324,22 @@ fn gen_c20(tier: &str, rng: &mut Rng, emit: &mut dyn FnMut(Op)) {
     }
 }
 
+/// SIZE: a database directory with thousands of entries that are not packages (plain files,
+/// incomplete directories) between two packages.  Emitted after the mutation pool is built.
+fn size_family(emit: &mut dyn FnMut(Op)) {
+    for kind in [b'f', b'd'] {
+        let mut args: Vec<Vec<u8>> = vec![b"daaa-1.0\0+COMMENT\0c\0+CONTENTS\0x\0+DESC\0d".to_vec()];
+        for i in 0..(if kind == b'f' { 20000 } else { 8000 }) {
+            let mut a = vec![kind];
+            a.extend(format!("stray{:05}", i).as_bytes());
+            args.push(a);
+        }
+        args.push(b"dzzz-2.0\0+COMMENT\0c\0+CONTENTS\0x\0+DESC\0d".to_vec());
+        let refs: Vec<&[u8]> = args.iter().map(|a| a.as_slice()).collect();
+        emit(Op::new("pkgdb.iter", &refs));
+    }
+}
+
 pub fn gen(id: &str, tier: &str, rng: &mut Rng, emit: &mut dyn FnMut(Op)) {
     match id {
         "C17" => {
@@ -329,7 +370,10 @@ pub fn gen(id: &str, tier: &str, rng: &mut Rng, emit: &mut dyn FnMut(Op)) {
             fuzz(&pool, n, rng, emit);
         }
         "C16" => with_oracle_fuzz(tier, rng, emit, &gen_c16),
-        "C20" => with_oracle_fuzz(tier, rng, emit, &gen_c20),
+        "C20" => {
+            with_oracle_fuzz(tier, rng, emit, &gen_c20);
+            size_family(emit);
+        }
         _ => {
             eprintln!("idx: unknown property {}", id);
             std::process::exit(2);
